@@ -63,7 +63,8 @@ MsgA(q)  == <<F("c", NatT("char"), 0), F("d", NatT(q.n4), 0),                   
               F("e", NatT(q.n1), K2(q)), F("o", StrT("MID"), 0), F("s", NatT("char"), 16), F("u", NatT(q.n2), 3)>>
 DefsOf(q) == [INNER |-> Inner(q), MID |-> Mid(q), MSG_A |-> MsgA(q), MSG_B |-> MsgA(q)]     \* MSG_B: field-list reuse of MSG_A
 StructNames == {"INNER", "MID"}
-MsgIds == [SIG |-> 1000, MSG_A |-> 1001, MSG_B |-> 1002]
+(* one signal and one constant whose names are longer than the 48-column padding the C back end uses for its #define lines *)
+MsgIds == [SIG |-> 1000, MSG_A |-> 1001, MSG_B |-> 1002, SIGNAL_WITH_A_NAME_THAT_GOES_PAST_COLUMN_FORTY_EIGHT |-> 1040]
 
 RECURSIVE KindOf(_, _), SizeOfDef(_, _), AlignOfDef(_, _), Padded(_, _)
 KindOf(q, f) ==
@@ -92,7 +93,7 @@ FieldSig(q, d) ==
 Signature(q) ==
   [defs |-> [d \in DOMAIN DefsOf(q) |-> [fields |-> FieldSig(q, d), size |-> SizeOfDef(q, d), align |-> AlignOfDef(q, d)]],
    ids |-> MsgIds,
-   constants |-> [K |-> q.k, K2 |-> K2(q), BIG |-> q.k * 1000 + 7],
+   constants |-> [K |-> q.k, K2 |-> K2(q), BIG |-> q.k * 1000 + 7, CONSTANT_WITH_A_NAME_THAT_GOES_PAST_COLUMN_FORTY_EIGHT |-> 77],
    ratios |-> [HALF |-> <<q.k, 2>>, INV |-> <<1, q.k>>, SPAN |-> <<q.k * 2 + 1, 2>>],     \* constant expressions with a division: numerator / denominator
    mids |-> [MYMOD |-> 12], hids |-> [MYHOST |-> 10],
    reserved |-> {1003, 1005, 1006, 1007}]
